@@ -281,6 +281,41 @@ fn hash_block(ctx: &Ctx) {
             }
         }
     }
+    // HKDF with the default (empty) salt first, then all-zero salts of every length around the HMAC block size:
+    // RFC 5869 says an absent salt equals HashLen zeros, and HMAC hashes keys longer than 64 bytes first
+    for (k, l) in [0usize, 1, 31, 32, 33, 63, 64, 65, 66, 96, 127, 128, 129, 200, 300, 0, 64, 65].iter().enumerate() {
+        let salt = vec![0u8; *l];
+        let ikm = rng.bytes(22);
+        let info = rng.bytes_in(0, 10);
+        ctx.eval();
+        let want = ossl::hkdf_sha256(&salt, &ikm, &info, 42);
+        match guarded(|| hkdf_sha256(&salt, &ikm, &info, 42)) {
+            Ok(g) if g == want => {
+                ctx.seen("hkdf == RFC 5869 for all-zero salts");
+                ctx.distinct(&format!("hkdf0|{}|{}", k, l));
+            }
+            Ok(_) => ctx.violation(&format!("C19:hkdf:differs:all-zero-salt-{}", if *l > 64 { "longer-than-a-block" } else { "up-to-a-block" }), json!({"salt_len": l, "ikm": hex(&ikm), "info": hex(&info), "call_index": k})),
+            Err(p) => ctx.violation(&format!("C19:hkdf:panic:{}", panic_site(&p)), json!({"salt_len": l})),
+        }
+    }
+    // the opposite call order in a fresh process: long all-zero salt first, the empty salt afterwards
+    {
+        let me = std::env::current_exe().ok();
+        if let Some(exe) = me {
+            let wd = crate::cli::WorkDir::new("c19");
+            let o = crate::cli::Cmd::new(&wd.path, &["c19-child"]).bin(exe).run();
+            ctx.eval();
+            let out = o.stdout_s();
+            if o.exit == crate::cli::Exit::Code(0) && out.contains("C19-CHILD-OK") {
+                ctx.seen("hkdf call-order independence (fresh process, long all-zero salt first)");
+                ctx.distinct("hkdf-order");
+            } else if out.contains("C19-CHILD-MISMATCH") {
+                ctx.violation("C19:hkdf:value-depends-on-earlier-calls-in-the-process", json!({"child_output": out}));
+            } else {
+                ctx.inconclusive(&format!("c19 child did not run: {} {}", o.exit.describe(), o.stderr_s()));
+            }
+        }
+    }
     // HKDF: salt/ikm/info lengths 0..300, output lengths 1..100 and the maximum
     let n = ctx.tier.pick(600, 6000);
     for i in 0..n {
@@ -335,6 +370,32 @@ fn nonce_block(ctx: &Ctx) {
     }
 }
 
+/// `kmon c19-child`: primitives called in an unusual order in a fresh process (state carried between calls).
+pub fn child_main() {
+    let mut bad = Vec::new();
+    let calls: Vec<(Vec<u8>, &[u8], &[u8], usize)> = vec![(vec![0u8; 100], b"ikm-one", b"info", 42), (vec![], b"ikm-two", b"", 32), (vec![0u8; 32], b"ikm-3", b"x", 64), (vec![0u8; 65], b"ikm-4", b"", 16), (vec![], b"ikm-5", b"info", 42)];
+    for (salt, ikm, info, len) in calls {
+        let want = ossl::hkdf_sha256(&salt, ikm, info, len);
+        match guarded(|| hkdf_sha256(&salt, ikm, info, len)) {
+            Ok(g) if g == want => {}
+            _ => bad.push(format!("salt=zeros({}) ikm={}", salt.len(), String::from_utf8_lossy(ikm))),
+        }
+    }
+    // HMAC / SHA-256 repeated with interleaved inputs
+    for i in 0..50usize {
+        let k = vec![i as u8; i * 3 % 131];
+        let d = vec![(i * 7) as u8; i % 70];
+        if hmac_sha256(&k, &d)[..] != ossl::hmac_sha256(&k, &d)[..] || sha256(&d)[..] != ossl::sha256(&d)[..] {
+            bad.push(format!("hmac/sha iteration {}", i));
+        }
+    }
+    if bad.is_empty() {
+        println!("C19-CHILD-OK");
+    } else {
+        println!("C19-CHILD-MISMATCH {:?}", bad);
+    }
+}
+
 pub fn run(ctx: &Ctx) {
     ctx.rule(
         "differential of every exported primitive against OpenSSL / the RFC 7748 ladder: AEAD seal/open on the full (|pt| 0..130) x (|aad| 0..40) grid for 3 keys; \
@@ -353,6 +414,7 @@ pub fn run(ctx: &Ctx) {
     ctx.require("x25519 == RFC 7748", 1000);
     ctx.require("x25519 low-order point -> DhError", 14);
     ctx.require("hkdf ==", 100);
+    ctx.require("hkdf call-order independence", 1);
     ctx.require("hmac ==", 100);
     ctx.require("sha256 ==", 100);
     ctx.require("noise nonce ==", 100);
